@@ -295,6 +295,9 @@ class Batch:
     shrink: Optional[Callable[[Any], Iterable[Any]]] = None
     shard: int = 400
     describe: str = ""
+    observe: Optional[Callable[[Any, Any], None]] = None
+    # observe(case, impl_result): called in the PARENT process for every case after the implementation runs
+    # (impl may run in forked workers, where anything it records in module state is lost)
 
 
 @dataclass
@@ -364,6 +367,9 @@ def run_batch(ctx: Ctx, b: Batch) -> None:
     t0 = time.time()
     results = run_impl(b)
     t_impl = time.time() - t0
+    if b.observe is not None:
+        for c, r in zip(b.cases, results):
+            b.observe(c, r)
     lits = [(b.enc_in(c), b.enc_out(c, r)) for c, r in zip(b.cases, results)]
     mism, t_coq = coq_mismatches(f"{ctx.prop}_{b.name}", b.header, b.run, b.eqb, b.ty_in, b.ty_out, lits, shard=b.shard)
     nt = 0
